@@ -230,6 +230,19 @@ func (ssr *SegmentSearchRequest) JoinColumnInfo(toJoin *SegmentSearchRequest) {
 	for col := range toJoin.AllPossibleColumns {
 		ssr.AllPossibleColumns[col] = true
 	}
+	// the columns that passed the micro index check for toJoin have to be searched in the
+	// blocks of ssr as well; a search over all columns looks at no other column
+	for blockNum, cnames := range toJoin.CmiPassedCnames {
+		if _, ok := ssr.AllBlocksToSearch[blockNum]; !ok {
+			continue
+		}
+		if _, ok := ssr.CmiPassedCnames[blockNum]; !ok {
+			ssr.CmiPassedCnames[blockNum] = make(map[string]bool)
+		}
+		for cname := range cnames {
+			ssr.CmiPassedCnames[blockNum][cname] = true
+		}
+	}
 }
 
 func (searchExp *SearchExpression) IsMatchAll() bool {
